@@ -278,9 +278,9 @@ def apply_time_range_vevent(start, end, comp, tzify):
         return start < tzify(dtend.dt)
 
     duration = comp.get("DURATION")
-    if duration:
+    if duration and duration.dt > timedelta(0):
         return start < tzify(dtstart.dt) + duration.dt
-    if getattr(dtstart.dt, "time", None) is not None:
+    if duration or getattr(dtstart.dt, "time", None) is not None:
         return start <= tzify(dtstart.dt)
     else:
         return start < (tzify(dtstart.dt) + timedelta(1))
